@@ -30,7 +30,8 @@ type c09Engine struct{}
 func (c09Engine) Name() string     { return "vm-leak" }
 func (c09Engine) Property() string { return "C09" }
 
-var c09Families = []string{"normal", "rterr", "panic", "recovered", "sortcmp", "sorterr", "stringer", "stringerr", "goerr", "sleepers", "blocked", "nested"}
+var c09Families = []string{"normal", "rterr", "panic", "recovered", "sortcmp", "sorterr", "stringer", "stringerr", "goerr", "sleepers", "blocked", "nested",
+	"gopanic", "gopanic-callback", "failpanic"}
 
 func (c09Engine) Generate(seed uint64, tier string) *simrun.Case {
 	r := sim.NewRand(seed)
@@ -197,6 +198,45 @@ func main() {
 	fmt.Println("main leaves workers blocked")
 }
 `, use, w), false, w
+	case "gopanic":
+		// a native runtime function runs into a Go run-time panic (injected at the runtime-function seam)
+		return head + fmt.Sprintf(`func main() {
+%s	total := 0
+	for i := 0; i < %d; i = i + 1 {
+		if i == %d {
+			total = total + vsboom()
+		}
+		total = total + i
+	}
+	fmt.Println(total)
+}
+`, use, n, at), true, 0
+	case "gopanic-callback":
+		// ... inside a callback invoked by a runtime function (comparator run on a reused context)
+		return head + fmt.Sprintf(`func main() {
+%s	arr := []int{5, 3, 4, 1, 2, 9, 7}
+	calls := 0
+	sort.Slice(arr, func(i int, j int) bool {
+		calls = calls + 1
+		if calls > %d {
+			return vsboom() < arr[j]
+		}
+		return arr[i] < arr[j]
+	})
+	fmt.Println(arr)
+}
+`, use, at), true, 0
+	case "failpanic":
+		// @fail with ego.runtime.panics=true: the directive re-panics at the Go level
+		return head + fmt.Sprintf(`func main() {
+%s	for i := 0; i < %d; i = i + 1 {
+		if i == %d {
+			@fail "deliberate failure"
+		}
+	}
+	fmt.Println("not reached")
+}
+`, use, n, at), true, 0
 	default: // nested: comparator that itself formats a Stringer, inside try/catch, error at the end
 		return head + fmt.Sprintf(`type T struct {
 	v int
@@ -235,13 +275,26 @@ func (c09Engine) Execute(t *testing.T, c *simrun.Case, keepLog bool) *simrun.Out
 	var rerrs []error
 	var outputs []string
 	var pan any
+	gopanics := 0
+	fam := c09Families[int(c.Knob("family", 0))%len(c09Families)]
 	opt := c.SchedOptions(keepLog)
 	opt.MaxSteps = 400000
 	p := simrun.Bubble(t, func() {
 		res = sim.Run(opt, func() {
 			defer func() { pan = recover() }()
 			for i := 0; i < execs; i++ {
-				o, ce, re := RunProgram("c09", src, VMOptions{Optimize: c.Knob("optimize", 0) == 1})
+				var o string
+				var ce, re error
+				func() {
+					// the embedding server recovers a Go panic of one execution and carries on
+					defer func() {
+						if r := recover(); r != nil {
+							gopanics++
+							re = fmt.Errorf("go panic: %v", r)
+						}
+					}()
+					o, ce, re = RunProgram("c09", src, VMOptions{Optimize: c.Knob("optimize", 0) == 1, Faulty: true, RuntimePanics: fam == "failpanic"})
+				}()
 				if ce != nil {
 					cerr = ce
 					return
@@ -259,8 +312,8 @@ func (c09Engine) Execute(t *testing.T, c *simrun.Case, keepLog bool) *simrun.Out
 	}
 	out.FromSched(res)
 	out.Nontrivial = true
-	fam := c09Families[int(c.Knob("family", 0))%len(c09Families)]
 	out.Probe("family/"+fam, 1)
+	out.Probe("go_panics_recovered_by_the_host", gopanics)
 	out.Probe("executions", execs)
 	out.Hash = simrun.HashStrings(res.Hash, fam, fmt.Sprint(c.Knobs))
 	if keepLog {
@@ -278,7 +331,7 @@ func (c09Engine) Execute(t *testing.T, c *simrun.Case, keepLog bool) *simrun.Out
 		return out
 	}
 	for i, re := range rerrs {
-		if fam == "sorterr" || fam == "stringerr" || fam == "nested" || fam == "goerr" {
+		if fam == "sorterr" || fam == "stringerr" || fam == "nested" || fam == "goerr" || fam == "gopanic-callback" {
 			if re != nil {
 				out.Probe("error_exits", 1)
 			}
